@@ -342,6 +342,68 @@ def _big(rng, what, n_spikes, stride, req, down=False):
                                    'ids_dtype': 'int64'}}
 
 
+ROUND = [1000, 1024, 2048, 2500, 4096, 5000, 8192, 10000, 16384, 20000, 25000, 32768, 50000, 65536, 100000]
+FORMS = ['tail', 'head', 'rev', 'two', 'mixed']
+
+
+def _round_len(rng, cap):
+    """a request length next to a multiple of a round block size: k * c + d, d in -1 .. 2"""
+    c = rng.choice([c for c in ROUND if c <= cap])
+    return min(cap + 2, rng.randint(1, max(1, cap // c)) * c + rng.choice([-1, 0, 1, 1, 2]))
+
+
+def _big_len(rng, what, n_req, stride, form, table=True):
+    """Stage 6: the LENGTH of a long request as an axis of its own.  A store given by rule (full: stride 1, with or
+    without the identity spike-id table; subset: every stride-th spike) and a request with exactly n_req STORED spikes
+    ('tail' / 'head' = the last / first n_req stored spikes in increasing order, 'rev' = decreasing, 'two' = two
+    increasing runs swapped, 'mixed' = every spike id of a range, stored or not, n_req of them stored), observed at
+    the first and last rows, around every multiple of every round block size (ROUND) and at random rows."""
+    nt, nc = 4, 6
+    nstored = n_req + rng.choice([0, 0, 1, 3, 17])
+    n_spikes = nstored * stride - rng.choice([0, stride - 1])
+    rows = [['seg', 0, stride, nstored]] if (stride > 1 or table) else None
+    ncl = 2 if what == 'features' else 3
+    universe = nc if what == 'features' else nt
+    ind = [rng.sample(range(universe), ncl) for _ in range(nt)]
+    first = (nstored - n_req) * stride                         # spike id of the first requested stored spike ('tail')
+    f = 1
+    if form == 'tail':
+        ids = [['seg', first, stride, n_req]]
+    elif form == 'head':
+        ids = [['seg', 0, stride, n_req]]
+    elif form == 'rev':
+        ids = [['seg', (nstored - 1) * stride, -stride, n_req]]
+    elif form == 'two':
+        h = rng.choice([1, n_req // 2, n_req - 1]) if n_req > 1 else 0
+        ids = [['seg', first + h * stride, stride, n_req - h], ['seg', first, stride, h]]
+    else:                                                      # 'mixed': positions 0, stride, 2 stride, ... are stored
+        ids = [['seg', first, 1, (n_req - 1) * stride + 1]]
+        f = stride
+    n_ids = sum(s[3] for s in ids)
+    marks = set([0, n_req])
+    for c in ROUND:
+        marks.update(range(c, n_req + 3, c))
+    probes = set()
+    for m_ in marks:
+        probes.update(range(f * m_ - 4, f * m_ + 5))
+    probes.update(rng.randrange(n_ids) for _ in range(16))
+    probes = sorted(p for p in probes if 0 <= p < n_ids)
+    chans = rng.sample(range(nc), nc)
+    return {'kind': 'big', 'inp': {'what': what, 'n_spikes': n_spikes, 'n_templates': nt, 'n_channels': nc, 'npcs': 2,
+                                   'ncl': ncl, 'rows': rows, 'drule': [rng.choice([7, 11, 13]), 3, 5, 8191], 'ind': ind,
+                                   'trule': [rng.choice([1, 3, 5]), rng.randrange(nt)], 'ids': ids, 'chans': chans,
+                                   'probes': probes, 'rows_dtype': rng.choice(['int64', 'int32', 'uint32']),
+                                   'ids_dtype': rng.choice(['int64', 'int64', 'int32', 'uint32']), 'form': form}}
+
+
+def _big_len_random(rng, cap):
+    what = rng.choice(['features', 'tfeatures'])
+    stride = rng.choice([1, 1, 2, 3])
+    form = rng.choice(FORMS if stride > 1 else FORMS[:4])
+    return _big_len(rng, what, _round_len(rng, cap // stride if form == 'mixed' else cap), stride, form,
+                    table=rng.random() < 0.5)
+
+
 def _fs_wide(rng):
     """from_sparse on int64 / uint64 data with cells beyond 2^53 (not representable in float64)."""
     c = _fs_random(rng)
@@ -578,6 +640,14 @@ def _corpus(rng):
                chrows=[[0, 1], [0, -1], [0, 1]], ids=[3, 0, 2], chans=[1, 0], exact=True)
     spx['judged'] = sum(D6.determined_components(D6.effective_waveforms(spx), 2))
     cases.append({'kind': 'pcas', 'inp': spx})
+    # stage 6 (fifth seeding round, m12): the length of a long request.  Forced instances: k * block + 1 stored spikes
+    # requested, with and without a spike-id table (own generator state: the streams below are unchanged)
+    import random
+    r6 = random.Random(606)
+    cases.append(_big_len(r6, 'tfeatures', 10001, 1, 'tail', table=False))
+    cases.append(_big_len(r6, 'features', 20001, 2, 'mixed'))
+    cases.append(_big_len(r6, 'features', 4097, 1, 'rev', table=True))
+    cases.append(_big_len(r6, 'tfeatures', 16385, 3, 'two'))
     return cases
 
 
@@ -656,6 +726,9 @@ def generate(tier, rng):
     # stage 4 (full sweep): int64 / uint64 data beyond 2^53 (appended last: the streams above are unchanged)
     for _ in range(40 if quick else 600):
         cases.append(_fs_wide(rng))
+    # stage 6: long requests whose length sits next to a multiple of a round block size (appended last)
+    for _ in range(8 if quick else 60):
+        cases.append(_big_len_random(rng, 33000))
     return cases
 
 
@@ -1031,6 +1104,12 @@ def dist(case, obs):
         out.append('big.n_spikes=%d' % i['n_spikes'])
         out.append('big.n_stored=%s' % (len(rows) if rows is not None else i['n_spikes']))
         out.append('big.request_len=%d' % len(D6.expand(i['ids'])))
+        if 'form' in i:
+            stored_req = len(set(D6.expand(i['ids'])) & set(rows)) if rows is not None else len(D6.expand(i['ids']))
+            out.append('big.request_form=%s' % i['form'])
+            out.append('big.row_table=%s' % ('none' if rows is None else 'identity' if len(rows) == i['n_spikes'] else 'subset'))
+            out.append('big.stored_requested_mod_1000=%s' % (stored_req % 1000 if stored_req % 1000 <= 2 or stored_req % 1000 == 999 else 'other'))
+            out.append('big.stored_requested_mod_1024=%s' % (stored_req % 1024 if stored_req % 1024 <= 2 or stored_req % 1024 == 1023 else 'other'))
         out.append('big.outcome=%s' % obs[1][0])
     elif k == 'idx':
         lk = D6.expand(i['lookup'])
@@ -1141,7 +1220,15 @@ def shrink(case):
             yield {'kind': k, 'inp': j}
     elif k == 'big':
         ids = D6.expand(i['ids'])
-        if len(i['probes']) > 1:
+        if len(i['probes']) > 2:
+            # many probes (stage 6): every candidate costs one evaluation of the large store, so halve instead of
+            # dropping one probe at a time (a failing probe fails on its own: rows are judged one by one)
+            h = len(i['probes']) // 2
+            for sub in (i['probes'][h:], i['probes'][:h]):
+                j = copy.deepcopy(i)
+                j['probes'] = list(sub)
+                yield {'kind': k, 'inp': j}
+        elif len(i['probes']) > 1:
             for c in range(len(i['probes'])):
                 j = copy.deepcopy(i)
                 del j['probes'][c]
